@@ -172,9 +172,11 @@ PROPS.update({
              ['pre-condition: clone() is called without extra keyword arguments (as WBS.__clone_tasks does)', 'outside task sharing an id with a member: known finding A-22'], design_ref='8/C10'),
     'C19': P('other', 'reduced scope (DESIGN.md section 10). Contract-based deductive verification of the value-level clauses that live in pjplan code: MermaidGantt.__mermaid_task_state returns the milestone flag exactly for '
              'milestones and the done/active token from the dates; the progress computation of DhtmlxGantt.__data (statements taken from the real AST) yields a value within 0..1 for every scheduled task and never raises. '
-             'Everything about the emitted documents - one line / entry per task, edges, link numbering, JSON well-formedness, escaping - is decided by the bounded stand-in at the lexical level; what Mermaid, a browser or DHTMLX make of the '
+             'MermaidNetwork.__src is proved at the level of line counts (abstract text theory: number of line breaks): after the heading line the source has, for every member task, one line per predecessor - or one Start line if it has none - and one style line per '
+             'task that carries a bar style (three loops; domain: single-line task names, the property\'s quantifier). '
+             'Everything else about the emitted documents - what the lines say, one line / entry per task in the Gantt documents, link numbering, JSON well-formedness, escaping - is decided by the bounded stand-in at the lexical level; what Mermaid, a browser or DHTMLX make of the '
              'text cannot be expressed by a contract on pjplan functions.',
-             ['MermaidGantt.__src / __mermaid_task / __styles', 'MermaidNetwork.__src', 'DhtmlxGantt.__data (document structure) / __task_classes / __columns / to_html', '_repr_html_'],
+             ['MermaidGantt.__src / __mermaid_task / __styles', 'MermaidNetwork.__src (content of the lines)', 'DhtmlxGantt.__data (document structure) / __task_classes / __columns / to_html', '_repr_html_'],
              ['library contracts (L): json.dumps, html.escape, string.Template, strftime'], ['task names containing an arrow add an edge to the network line: known finding A-29'], design_ref='8/C19, 10'),
 })
 for _p in ['C01', 'C02', 'C03', 'C04', 'C05', 'C06', 'C07', 'C08', 'C09', 'C10', 'C11', 'C12', 'C13', 'C14', 'C15', 'C16', 'C18', 'C19', 'C20']:
